@@ -587,6 +587,7 @@ class BaseConnector:
         finally:
             self._conns.clear()
             self._acquired.clear()
+            self._acquired_per_host.clear()
             for keyed_waiters in self._waiters.values():
                 for keyed_waiter in keyed_waiters:
                     keyed_waiter.cancel()
@@ -723,6 +724,10 @@ class BaseConnector:
         # slot is still available.
         attempts = 0
         while True:
+            if self._closed:
+                # Woken just before close(): do not queue again on a closed
+                # connector, nobody would ever wake or fail this waiter.
+                raise ClientConnectionError("Connector is closed.")
             fut: asyncio.Future[None] = self._loop.create_future()
             keyed_waiters = self._waiters[key]
             keyed_waiters[fut] = None
